@@ -9,6 +9,7 @@ CONSTANTS
   Ops <- MCOps
   ScaleArgs <- MCScaleArgs
   MinFreqs = {1, 3, 8, 20, 100}
+  CellArgs <- MCCellArgs
   RetCands <- MCRetCands
   ProjAxes <- MCProjAxes
   MergeArgs <- MCMergeArgs
